@@ -335,6 +335,11 @@ let step_preds : (string * (vconfig -> fstep -> bool)) list = [
   ("c14_segments_ok", c14_segments_ok);
   ("c08_deadline_ok", c08_deadline_ok);
   ("c14_wire_ok", c14_wire_ok);
+  ("c17_fin_covers_data_ok", c17_fin_covers_data_ok);
+  ("c18_off_all_segmented_ok", c18_off_all_segmented_ok);
+  ("c18_drain_sends_ok", c18_drain_sends_ok);
+  ("c18_buffered_segmented_ok", c18_buffered_segmented_ok);
+  ("c18_pre_ok", c18_pre_ok);
   ("c05_window_ok2", c05_window_ok2);
   ("c05_rto_exit_ok2", c05_rto_exit_ok2);
   ("c05_zero_window_ok_open", c05_zero_window_ok_open);
@@ -386,9 +391,17 @@ let trace_preds : (string * (vconfig -> fstep list -> bool)) list = [
   ("c06_rp_exit_ok", c06_rp_exit_ok);
   ("c07_idle_silent_partial", c07_idle_silent_partial);
   ("c07_trigger_ok", c07_trigger_ok);
+  ("c06_emitted_live_ok_g", c06_emitted_live_ok_g);
+  ("c06_no_resend_acked_g", c06_no_resend_acked_g);
+  ("c06_fast_retx_ok_g", c06_fast_retx_ok_g);
   ("c08_fires_ok", c08_fires_ok);
   ("c17_fin_seq_ok", c17_fin_seq_ok);
   ("c17_peer_fin_ok", c17_peer_fin_ok);
+  ("c17_peer_fin_ok2", c17_peer_fin_ok2);
+  ("c04_vsock_ack_guarded", c04_vsock_ack_guarded);
+  ("c04_consumed_honest_guarded", c04_consumed_honest_guarded);
+  ("c04_d22_class", c04_d22_class);
+  ("c06_stable_plen_ok_p", c06_stable_plen_ok_p);
   ("c17_reset_trace_ok", c17_reset_trace_ok);
   ("c03_after_death_ok", c03_after_death_ok);
   (* classifiers of known classes: OK = the trace is in the class *)
@@ -447,6 +460,46 @@ let run_vsock_shift toks =
         | Some i -> "FAIL c09_shift_ok step=" ^ string_of_z i
         | None -> "FAIL c09_shift_ok")
   | _ -> failwith "vsock_shift: bad case"
+
+(* vsock_shift_g <da> <db> <dc> <tol> <case1> | <obs1> | <case2> | <obs2>
+   as vsock_shift, but judged under the guard of the model theorem: a case is judged when the extracted model,
+   run on the inputs of the first case, finds every sequence-number comparison within the tolerance
+   (c09_guard_trace; by c09_model_runs_shift_ok the model's two traces are then relabellings of each other, and
+   by c09_guard_trace_shift the same holds seen from the second case), or when both traces satisfy the
+   fingerprint-level guard c09_within_tol; SKIP otherwise *)
+let run_vsock_shift_g toks =
+  match toks with
+  | da :: db :: dc :: tol :: rest ->
+    let (case1, r1) = split_bar [] rest in
+    let (obs1, r2) = split_bar [] r1 in
+    let (case2, obs2) = split_bar [] r2 in
+    let (cfg1, tr1) = steps_of case1 obs1 in
+    let (_, tr2) = steps_of case2 obs2 in
+    let a = Array.of_list case1 in
+    let ops = List.map parse_op (Array.to_list (Array.sub a 17 (Array.length a - 17))) in
+    let da = z_of_string da and db = z_of_string db and dc = z_of_string dc and tol = z_of_string tol in
+    let g = c09_guard_trace_cubic C_cubic.cbrt_oracle C_cubic.powf3_oracle cfg1 ops in
+    if not (g || (c09_within_tol tol tr1 && c09_within_tol tol tr2)) then "SKIP"
+    else if c09_shift_ok da db dc tr1 tr2 then "OK"
+    else (match c09_first_bad da db dc tr1 tr2 Z0 with
+        | Some i -> "FAIL c09_shift_ok step=" ^ string_of_z i ^ (if g then " model_guard" else " fingerprint_guard")
+        | None -> "FAIL c09_shift_ok")
+  | _ -> failwith "vsock_shift_g: bad case"
+
+(* vsock_shift_guard <case as vsock>
+   C09: the guard of the MODEL theorem c09_model_runs_shift_ok (Conn/C09_Shift.v c09_guard_trace), evaluated
+   by running the extracted model on the inputs of the case: GUARD = every sequence-number comparison the
+   model makes along the scenario is within the tolerance, hence (theorem) the model's relabelled run is the
+   relabelled trace *)
+let run_vsock_shift_guard toks =
+  let a = Array.of_list toks in
+  if Array.length a < 17 then "BADCASE" else
+  let cfg = config_of a in
+  let ops = List.map parse_op (Array.to_list (Array.sub a 17 (Array.length a - 17))) in
+  if c09_guard_trace_cubic C_cubic.cbrt_oracle C_cubic.powf3_oracle cfg ops then "GUARD"
+  else (match c09_guard_first_bad_cubic C_cubic.cbrt_oracle C_cubic.powf3_oracle cfg ops with
+      | Some i -> "NOGUARD step=" ^ string_of_z i
+      | None -> "NOGUARD")
 
 (* vdrop <case as vsock> : the ops may contain one `X` = the connection future is dropped without having
    returned (cancellation; model: drop_vsock = Drop for VirtualSocket); after it only application ops follow
@@ -542,6 +595,8 @@ let run_vdrop_pred toks =
 let dispatch = function
   | "vdrop_pred" :: r -> Some (run_vdrop_pred r)
   | "vdrop" :: r -> Some (run_vdrop r)
+  | "vsock_shift_guard" :: r -> Some (run_vsock_shift_guard r)
+  | "vsock_shift_g" :: r -> Some (run_vsock_shift_g r)
   | "vsock_shift" :: r -> Some (run_vsock_shift r)
   | "vsock_pred" :: r -> Some (run_vsock_pred r)
   | "vsock_pred_all" :: r -> Some (run_vsock_pred_all r)
